@@ -27,17 +27,18 @@ type c10Signer struct {
 }
 
 type c10Tx struct {
-	desc     string
-	types    []string
-	signer   string
-	memo     string
-	timeout  string
-	sig      string
-	raw      []byte
-	expCheck int // 1 admit, 0 refuse, 2 either
-	expBlock int // process / finalise
-	isBlock  bool
-	addr     sdk.AccAddress
+	desc        string
+	types       []string
+	signer      string
+	memo        string
+	timeout     string
+	sig         string
+	raw         []byte
+	expCheck    int // 1 admit, 0 refuse, 2 either
+	expBlock    int // process / finalise
+	isBlock     bool
+	hasBlockMsg bool
+	addr        sdk.AccAddress
 }
 
 // signerField returns the name of the field that designates the signer.
@@ -198,8 +199,31 @@ func c10Case(c *vc.Ctx, idx int) {
 				t.expCheck, t.expBlock = 2, 0 // cannot enter the next block; the mempool may or may not keep it for now
 			}
 		}
-		if t.isBlock && base && tmo == "next-height" {
-			t.expBlock = 1 // the sole exception, inside a block only
+		// inside a block every message must be either a bridge/relayer message of the relayer proposer or the
+		// execution-block message with timeout = that block's height (the statement does not ask the latter to be alone)
+		hasBlockMsg := false
+		insideOK := base
+		for _, ty := range tys {
+			switch {
+			case strings.HasSuffix(ty, "MsgNewEthBlock"):
+				hasBlockMsg = true
+				if tmo != "next-height" {
+					insideOK = false
+				}
+			case inBridgeNamespaces(ty):
+				if sg.name != "relayer-proposer" {
+					insideOK = false
+				}
+			default:
+				insideOK = false
+			}
+		}
+		if hasBlockMsg {
+			t.hasBlockMsg = true
+			t.expBlock = 0
+			if insideOK {
+				t.expBlock = 1
+			}
 		}
 		t.desc = fmt.Sprintf("%v signer=%s memo=%q timeout=%s sig=%s", shortTypes(tys), sg.name, memo, tmo, sigv)
 		return t, true
@@ -283,7 +307,7 @@ func c10Case(c *vc.Ctx, idx int) {
 		lc := ch.LastCommitInfo(nil)
 		prop := append([][]byte{ptxs[0]}, t.raw)
 		okp, _ := ch.Process(0, 0, h, now, prop, lc, nil)
-		if !t.isBlock {
+		if !t.hasBlockMsg { // a block message behind the first transaction is refused by the proposal handler whatever the door says
 			switch {
 			case okp && t.expBlock == 0:
 				viol("proposal carrying a transaction that must be refused was accepted", t.desc, t)
@@ -340,7 +364,7 @@ func c10Case(c *vc.Ctx, idx int) {
 				return
 			}
 			c.Count("twin_store_comparisons", 1)
-		} else if !allBridgeTypes(t.types) && !t.isBlock {
+		} else if !allBridgeOrBlock(t.types) {
 			viol("a message outside the bridge and relayer modules was executed", t.desc, t)
 		}
 		_ = pre
@@ -428,3 +452,12 @@ func init() {
 
 var _ = abci.CheckTxType_New
 var _ = proto.Marshal
+
+func allBridgeOrBlock(tys []string) bool {
+	for _, t := range tys {
+		if !inBridgeNamespaces(t) && !strings.HasSuffix(t, "MsgNewEthBlock") {
+			return false
+		}
+	}
+	return true
+}
